@@ -421,6 +421,11 @@ def render_extract(ex, mode=None, canary=None, lenient=False):
             raise LostAnchor('%s: rewrite %s pattern occurs %d times: %r' % (ex.name, rule, n, frm))
         text = text.replace(frm, to)
         info['rewrites'].append({'rule': rule, 'from': frm, 'to': to, 'count': n})
+    if lenient and ex.kind == 'fn' and not ex.stub and any(d.startswith('rewrite R1') for d in info['dropped']):
+        # the wording of a message changed, so its declared R1 rewrite no longer matches: apply R1 in its generic form to what is left
+        text, n1 = re.subn(r'format!\((?:[^()]|\([^()]*\))*\)', 'verif_opaque_string()', text)
+        if n1:
+            info['rewrites'].append({'rule': 'R1', 'from': 'format!(...) (generic form, after a declared R1 rewrite stopped matching)', 'to': 'verif_opaque_string()', 'count': n1})
     if ex.kind == 'struct' and ex.fields is not None:
         # R16: keep only the named fields (the others are not touched by any extracted function)
         o = text.index('{')
@@ -580,7 +585,9 @@ def generate_tpl(tpl, unit, mode=None, canary=None, lenient=False, drop_hints_fo
                     ty, name = name.split('::', 1)
                 ex.kind, ex.name, ex.path, ex.impl, ex.nth, ex.tpl_line = 'fn', name, path, ty, 0, 0
                 ex.generic = True
-                extras.append(('note', 'auto-extracted helper %s%s (called by extracted code, not named in the template): verified without a contract' % ((ty + '::') if ty else '', name)))
+                # no termination claim for a helper nobody wrote a measure for (its loops and recursion are otherwise rejected outright)
+                ex.attrs.append('#[verifier::exec_allows_no_decreases_clause]')
+                extras.append(('note', 'auto-extracted helper %s%s (called by extracted code, not named in the template): verified without a contract and without a termination measure' % ((ty + '::') if ty else '', name)))
                 if ty:
                     extras.append(('text', 'impl %s {' % ty))
                 extras.append(('extract', ex))
